@@ -534,7 +534,8 @@ func init() {
 	SeqFamilies["C07"] = func(tier string) []SeqChunk { return append(c07FillChunks(tier), c07RowChunks(tier)...) }
 	register(&Family{
 		Property: "C07",
-		Rule: "(a) BarFiller.Fill driven directly: styles = {filler} x {padding} x {tip frame lists} and {lbound} x {rbound} and {refiller} over the strings {\"=\", \"\", 2-column CJK, base+combining mark, lone combining mark (0 columns), two ASCII runes} with tip lists {[>], [wide], [\"\", >], [=>]}, x reverse x tip-on-complete, available widths {0..5,8,13,24,80} (thorough 0..24,79,80,81,200), requested widths {0,1,w-1,w,w+1}, eight (total,current) pairs, refill {0, current/2}; spinner frames x 3 positions likewise. " +
+		Rule: "also: reuse histories with equal current and different totals, message fillers drawn in successive frames while the room left for them shrinks; " +
+			"(a) BarFiller.Fill driven directly: styles = {filler} x {padding} x {tip frame lists} and {lbound} x {rbound} and {refiller} over the strings {\"=\", \"\", 2-column CJK, base+combining mark, lone combining mark (0 columns), two ASCII runes} with tip lists {[>], [wide], [\"\", >], [=>]}, x reverse x tip-on-complete, available widths {0..5,8,13,24,80} (thorough 0..24,79,80,81,200), requested widths {0,1,w-1,w,w+1}, eight (total,current) pairs, refill {0, current/2}; spinner frames x 3 positions likewise. " +
 			"(b) one frame of a one-bar container of width w (manual refresh, non-terminal output) with 0..1 decorators per side from 26 Name/Meta decorators (texts empty/ASCII/CJK/32 columns, W in {0,3,40}, flags, ANSI colour through Meta), trim on/off, BarWidth default and w-1, three fillers. (c) every built-in decorator x WC x wrapper x statistics: reported width vs display width. " +
 			"Oracle: termination (loop fuel: a loop that runs 50000 iterations without a visible operation is reported as FUEL), no panic, valid UTF-8, body width == min(requested, available) when anything is drawn, row display width (SGR stripped) <= terminal width, reported width == display width; (d) two containers on pseudo terminals (4 bars on 3 rows whose bottom bars leave; decorators wider than the terminal): no line wraps. Every terminating case is re-executed on the unmodified package (digest comparison).",
 		Items: func(tier string) []Item {
